@@ -93,7 +93,7 @@ fn templates(rng: &mut Rng, exhaustive_len: usize, n_random: usize) -> Vec<Strin
         v.extend(next.iter().cloned());
         frontier = next;
     }
-    let pieces = ["$$", "$0", "$1", "$2", "$3", "$10", "$01", "$99", "${a}", "${n}", "${}", "${nope}", "${é}", "${a", "$", "$x", "é", "-", "\u{10000}", "$65535", "$65536", "$123456789", "$000002", "$0000012", "$000000", "$0000001", "$00010", "$000000000000000000001", "$065535", "$0065536", "$00000x", "$000001${a}", "{", "}", "${a}}", "$$1", "$ 1", "$²", "$①", "$１", "$½", "$٣0", "1$", "$-1", "$+1", "${1}", "${0}", "$\u{0}", "${ a}", "$ {a}"];
+    let pieces = ["$$", "$0", "$1", "$2", "$3", "$10", "$01", "$99", "${a}", "${n}", "${}", "${nope}", "${é}", "${x}", "${a", "$", "$x", "é", "-", "\u{10000}", "$65535", "$65536", "$123456789", "$000002", "$0000012", "$000000", "$0000001", "$00010", "$000000000000000000001", "$065535", "$0065536", "$00000x", "$000001${a}", "{", "}", "${a}}", "$$1", "$ 1", "$²", "$①", "$１", "$½", "$٣0", "1$", "$-1", "$+1", "${1}", "${0}", "$\u{0}", "${ a}", "$ {a}"];
     for _ in 0..n_random {
         let k = rng.range(1, 5);
         let mut s = String::new();
@@ -123,8 +123,14 @@ pub fn run(cfg: &Cfg, rep: &mut Report) {
         ("[\\q{ab|a}](?<n>c)?", f("v")),
         ("x*?", f("")),
         ("(?:a|(b))+", f("")),
+        // several groups inside one lookbehind (emitted right to left): names must still go with their own group
+        ("(?<=(\\d+)(?<n>px|em))\\b", f("")),
+        ("(?<=(?<a>a)(b)(?<n>c))", f("")),
+        ("(?<=(?<n>a)(?<a>b))c|(?<x>x)", f("")),
+        ("(?<!(?<a>q)(?<n>r))(?=(?<x>a)(b))a", f("")),
+        ("(?<=(?<n>.)(?=(?<a>.)(.))(?<x>.))", f("s")),
     ];
-    let haystacks = ["", "a", "ab", "aab", "xyz", "12-a 3-b", "éa\u{10000}b", "abcdefghijkl", "aAbBcC", "abcab", "y", "x", "bbb", "a\nb"];
+    let haystacks = ["", "a", "ab", "aab", "xyz", "12-a 3-b", "éa\u{10000}b", "abcdefghijkl", "aAbBcC", "abcab", "y", "x", "bbb", "a\nb", "12px 3em"];
     let mut rng = Rng::new(cfg.seed ^ 0x17);
     let tpls = templates(&mut rng, if cfg.quick() { 4 } else { 5 }, cfg.scaled(if cfg.quick() { 20_000 } else { 300_000 }));
     rep.add("templates", tpls.len() as u64);
